@@ -242,7 +242,7 @@ vm_harness! {
         let (mut vm, m) = M::vm();
         let (hv, nv) = (Value::from_raw(kani::any()), Value::from_raw(kani::any()));
         let n_ok = match nv.as_int() { Some(n) => n >= 1 && n <= 6, None => false };
-        let n_refused = match nv.as_int() { Some(n) => n <= 0 || n > (1i64 << 30), None => true };
+        let n_refused = match nv.as_int() { Some(n) => n <= 0 || n > 256 * 1024 * 1024, None => true };
         kani::assume(n_ok || n_refused);
         let r = bytes_real::v_resize(&mut vm, &[hv, nv]);
         match idx(hv) {
